@@ -295,7 +295,7 @@ c15_vie_seq!(c15_vie_leb128_seq_i64_n3, thorough, 5, Leb128, true, 3);
 c15_vie_seq!(c15_vie_zigzag_seq_i64_n3, thorough, 5, Zigzag, true, 3);
 c15_vie_seq!(c15_vie_delta_seq_u64_n3, quick, 5, Delta, false, 3);
 c15_vie_seq!(c15_vie_delta_seq_i64_n3, thorough, 5, Delta, true, 3);
-c15_vie_seq!(c15_vie_group_seq_u64_n3, thorough, 5, GroupVarint, false, 3);
+c15_vie_seq!(c15_vie_group_seq_u64_n3, quick, 5, GroupVarint, false, 3);
 c15_vie_seq!(c15_vie_group_seq_u64_n6, thorough, 8, GroupVarint, false, 6);
 c15_vie_seq!(c15_vie_group_seq_i64_n3, thorough, 5, GroupVarint, true, 3);
 c15_vie_seq!(c15_vie_prefixfree_seq_u64_n3, quick, 5, PrefixFree, false, 3);
